@@ -453,6 +453,15 @@ func reparsable(x ast.Expr, parent goast.Node, field string) bool {
 		if token.IsKeyword(v.Name) && v.Name != "goto" && v.Name != "type" && v.Name != "map" && v.Name != "break" && v.Name != "continue" && v.Name != "fallthrough" {
 			return false
 		}
+	case *ast.BasicLit:
+		switch field {
+		case "Tag", "Path":
+			return false // field tags and import paths are plain strings, not interpolated value expressions
+		}
+	case *ast.DomainTextLit:
+		if token.IsKeyword(v.Domain.Name) {
+			return false // goto`…` etc.: a keyword is an identifier only at the start of a statement
+		}
 	case *ast.FuncType:
 		if !v.Func.IsValid() {
 			return false // interface method signature
